@@ -150,7 +150,7 @@ pub struct CbCtx {
 impl CbCtx {
     fn cb1<E: Elem, A: CbArg<E>>(&self, a: A) -> E {
         let k = self.k.get();
-        ev!("\"ev\":\"cb\",\"k\":{},\"idx\":-1,\"args\":[{}],\"acc\":0", k, a.aid());
+        ev!("\"ev\":\"cb\",\"k\":{},\"idx\":-1,\"args\":[{}],\"acc\":0,\"pv\":-1", k, a.aid());
         if k == self.panic_at {
             a.consume();
             ev!("\"ev\":\"cb_ret\",\"k\":{},\"ret\":[],\"acc\":0,\"panic\":true", k);
@@ -168,7 +168,7 @@ impl CbCtx {
     }
     fn cb2<E: Elem, A: CbArg<E>, B: CbArg<E>>(&self, a: A, b: B) -> E {
         let k = self.k.get();
-        ev!("\"ev\":\"cb\",\"k\":{},\"idx\":-1,\"args\":[{},{}],\"acc\":0", k, a.aid(), b.aid());
+        ev!("\"ev\":\"cb\",\"k\":{},\"idx\":-1,\"args\":[{},{}],\"acc\":0,\"pv\":-1", k, a.aid(), b.aid());
         if k == self.panic_at {
             a.consume();
             b.consume();
@@ -190,9 +190,24 @@ impl CbCtx {
         self.k.set(k + 1);
         y
     }
+    /// zip of a tracked array with a plain (no drop glue) array of another element type
+    fn cbx<E: Elem, A: CbArg<E>>(&self, a: A, v: u64) -> E {
+        let k = self.k.get();
+        ev!("\"ev\":\"cb\",\"k\":{},\"idx\":-1,\"args\":[{}],\"acc\":0,\"pv\":{}", k, a.aid(), v);
+        if k == self.panic_at {
+            a.consume();
+            ev!("\"ev\":\"cb_ret\",\"k\":{},\"ret\":[],\"acc\":0,\"panic\":true", k);
+            injected_panic();
+        }
+        a.consume();
+        let y = E::fresh();
+        ev!("\"ev\":\"cb_ret\",\"k\":{},\"ret\":[{}],\"acc\":0,\"panic\":false", k, y.id());
+        self.k.set(k + 1);
+        y
+    }
     fn gen<E: Elem>(&self, i: usize) -> E {
         let k = self.k.get();
-        ev!("\"ev\":\"cb\",\"k\":{},\"idx\":{},\"args\":[],\"acc\":0", k, i);
+        ev!("\"ev\":\"cb\",\"k\":{},\"idx\":{},\"args\":[],\"acc\":0,\"pv\":-1", k, i);
         if k == self.panic_at {
             ev!("\"ev\":\"cb_ret\",\"k\":{},\"ret\":[],\"acc\":0,\"panic\":true", k);
             injected_panic();
@@ -204,7 +219,7 @@ impl CbCtx {
     }
     fn fold<E: Elem, A: CbArg<E>>(&self, acc: i64, a: A) -> i64 {
         let k = self.k.get();
-        ev!("\"ev\":\"cb\",\"k\":{},\"idx\":-1,\"args\":[{}],\"acc\":{}", k, a.aid(), acc);
+        ev!("\"ev\":\"cb\",\"k\":{},\"idx\":-1,\"args\":[{}],\"acc\":{},\"pv\":-1", k, a.aid(), acc);
         a.consume();
         if k == self.panic_at {
             ev!("\"ev\":\"cb_ret\",\"k\":{},\"ret\":[],\"acc\":0,\"panic\":true", k);
@@ -772,6 +787,15 @@ fn exec<E: Elem>(op: &str, vals: &mut Vec<Val<E>>, forms: &[String], arg: i64, m
             };
             o
         }
+        "zipx" => {
+            // tracked x plain-of-another-type, both operand orders, owned / borrowed
+            let left = js(st, "side") != "r";
+            let pref = js(st, "pform") == "ref";
+            Outcome::outs([match forms[0].as_str() {
+                "own" => with_arr!(take(vals, 0), a => zipx_own(a, left, pref, ctx).wrap(), bad()),
+                _ => with_arr!(&vals[0], a => zipx_ref(a, left, pref, ctx).wrap(), bad()),
+            }])
+        }
         "zip" => {
             let is_box = with_box!(&vals[0], _a => true, false);
             Outcome::outs([if is_box {
@@ -886,6 +910,24 @@ fn exec<E: Elem>(op: &str, vals: &mut Vec<Val<E>>, forms: &[String], arg: i64, m
     }
 }
 
+fn zipx_own<E: Elem, N: generic_array::ArrayLength>(a: GenericArray<E, N>, left: bool, pref: bool, ctx: &CbCtx) -> GenericArray<E, N> {
+    let p: GenericArray<u64, N> = GenericArray::generate(|i| i as u64);
+    match (left, pref) {
+        (true, false) => a.zip(p, |x, v| ctx.cbx::<E, E>(x, v)),
+        (true, true) => a.zip(&p, |x, v| ctx.cbx::<E, E>(x, *v)),
+        (false, false) => p.zip(a, |v, x| ctx.cbx::<E, E>(x, v)),
+        (false, true) => (&p).zip(a, |v, x| ctx.cbx::<E, E>(x, *v)),
+    }
+}
+fn zipx_ref<E: Elem, N: generic_array::ArrayLength>(a: &GenericArray<E, N>, left: bool, pref: bool, ctx: &CbCtx) -> GenericArray<E, N> {
+    let p: GenericArray<u64, N> = GenericArray::generate(|i| i as u64);
+    match (left, pref) {
+        (true, false) => a.zip(p, |x, v| ctx.cbx::<E, &E>(x, v)),
+        (true, true) => a.zip(&p, |x, v| ctx.cbx::<E, &E>(x, *v)),
+        (false, false) => p.zip(a, |v, x| ctx.cbx::<E, &E>(x, v)),
+        (false, true) => (&p).zip(a, |v, x| ctx.cbx::<E, &E>(x, *v)),
+    }
+}
 fn dflt_arr<E: Elem, N: generic_array::ArrayLength>() -> GenericArray<E, N> {
     GenericArray::<E, N>::default()
 }
